@@ -15,7 +15,7 @@ import (
 func init() {
 	register("C06", &propDef{
 		Title: "Source addresses print to strings that parse back to the same address",
-		Rules: []func(*Checker){ruleC06Ctor, ruleC06Sanitiser, ruleC06URLPath, ruleC06SubRaw, ruleC06FinalPattern, ruleC06Host, ruleC06CanonURL, aliasRuleFiltered(ruleC07Query, "C07.query", "C06.query", 1, func(o Oblig) bool { return strings.Contains(o.Key, "archive value normalised") }), ruleC06Manifest, ruleC06Print, ruleAddrErrors("C06.errors"), ruleNameAgreement("C06.names", "sourceaddrs"), ruleURLFields("C06.urlfields"), ruleLiteralAgreement("C06.fields", "sourceaddrs", nil), ruleC06QueryCut, ruleURLHostUntouched("C06.host"), ruleAllFieldsPrinted("C06.allfields"), ruleTypePrefixAfterSplit("C06.splitfirst")},
+		Rules: []func(*Checker){ruleC06Ctor, ruleC06Sanitiser, ruleC06URLPath, ruleC06SubRaw, ruleC06FinalPattern, ruleC06Host, ruleC06CanonURL, aliasRuleFiltered(ruleC07Query, "C07.query", "C06.query", 1, func(o Oblig) bool { return strings.Contains(o.Key, "archive value normalised") }), ruleC06Manifest, ruleC06Print, ruleAddrErrors("C06.errors"), ruleNameAgreement("C06.names", "sourceaddrs"), ruleURLFields("C06.urlfields"), ruleLiteralAgreement("C06.fields", "sourceaddrs", nil), ruleC06QueryCut, ruleURLHostUntouched("C06.host"), ruleAllFieldsPrinted("C06.allfields"), ruleTypePrefixAfterSplit("C06.splitfirst"), ruleSubPathFromSplitterOnly("C06.splitonce")},
 		NotDecided: []string{
 			"the round trip itself: URL escaping, fragments, case folding, registry-address normalisation are facts about string contents",
 			"idempotence of printing for every accepted spelling",
@@ -1060,7 +1060,7 @@ func trName(cl *ssa.Call) string {
 
 func ruleC07Query(c *Checker) {
 	const R = "C07.query"
-	c.rule(R, "The per-type query rules guard every acceptance: in the archive implementation every nil return lies past the passing edge of the 'checksum' rejection (unconditionally) and past either the archive-value test (tar.gz / tgz) or the path-suffix test (.tar.gz / .tgz); in the git implementation every nil return lies after the loop that rejects any key other than \"ref\" and repeated values. A rejecting test is an If one of whose edges leads only to error returns.", 5)
+	c.rule(R, "The per-type query rules guard every acceptance: in the archive implementation every nil return lies past the passing edge of the 'checksum' rejection (unconditionally) and past either the archive-value test (tar.gz / tgz) or the path-suffix test (.tar.gz / .tgz), the suffix deciding only on the side of the presence test where no 'archive' argument exists; in the git implementation every nil return lies after the loop that rejects any key other than \"ref\" and repeated values. A rejecting test is an If one of whose edges leads only to error returns.", 5)
 	p := c.P
 	impls := registryImpls(p)
 	done := map[*ssa.Function]bool{}
@@ -1184,6 +1184,69 @@ func ruleC07Query(c *Checker) {
 			for i, r := range succ {
 				c.check(guarded(r.Block(), cs), R, name, fmt.Sprintf("nil return %d past the checksum rejection", i), p.Pos(r.Pos()), "acceptance only when no 'checksum' argument is present", "an archive address carrying a 'checksum' argument can be accepted on this path")
 				c.check(guarded(r.Block(), arch), R, name, fmt.Sprintf("nil return %d past an archive-format test", i), p.Pos(r.Pos()), "acceptance only with a tar.gz/tgz archive argument or a .tar.gz/.tgz path", "an archive address can be accepted without a recognised archive format")
+			}
+			// the path suffix stands in for the argument only when there is no argument: every acceptance is past
+			// the value test or past the 'absent' edge of the presence test on "archive"
+			var absent []Edge
+			for _, b := range fn.Blocks {
+				ifi, ok := b.Instrs[len(b.Instrs)-1].(*ssa.If)
+				if !ok {
+					continue
+				}
+				mentions, value := false, false
+				for v := range p.backSlice(ifi.Cond, 0) {
+					if s2, ok := constString(v); ok {
+						switch s2 {
+						case "archive":
+							mentions = true
+						case "tar.gz", "tgz":
+							value = true
+						}
+					}
+				}
+				if !mentions || value {
+					continue
+				}
+				cnd, neg := stripNot(ifi.Cond)
+				absentOnTrue, known := false, false
+				switch x := cnd.(type) {
+				case *ssa.BinOp:
+					if lc, ok := x.X.(*ssa.Call); ok {
+						if bi, ok := lc.Call.Value.(*ssa.Builtin); ok && bi.Name() == "len" {
+							if k, isC := constInt(x.Y); isC {
+								switch {
+								case (x.Op == token.GTR || x.Op == token.NEQ) && k == 0, x.Op == token.GEQ && k == 1:
+									absentOnTrue, known = false, true
+								case (x.Op == token.EQL || x.Op == token.LEQ) && k == 0, x.Op == token.LSS && k == 1:
+									absentOnTrue, known = true, true
+								}
+							}
+						}
+					}
+				case *ssa.Extract:
+					if _, ok := x.Tuple.(*ssa.Lookup); ok && x.Index == 1 {
+						absentOnTrue, known = false, true
+					}
+				case *ssa.Call:
+					if o := calleeObj(x); o != nil && o.Name() == "Has" && objPkgPath(o) == "net/url" {
+						absentOnTrue, known = false, true
+					}
+				}
+				if !known {
+					continue
+				}
+				if neg {
+					absentOnTrue = !absentOnTrue
+				}
+				if absentOnTrue {
+					absent = append(absent, Edge{b, 0})
+				} else {
+					absent = append(absent, Edge{b, 1})
+				}
+			}
+			valuePass := append(append(append([]Edge{}, passEdges("tar.gz", "tgz")...), eqT...), neF...)
+			for i, r := range succ {
+				c.check(guarded(r.Block(), append(append([]Edge{}, absent...), valuePass...)), R, name, fmt.Sprintf("nil return %d: suffix decides only without an argument", i), p.Pos(r.Pos()), "acceptance is past the archive-value test, or on the side of the presence test where there is no 'archive' argument", "an archive address can be accepted on its path suffix although an 'archive' argument is present and was not examined: x.tgz?archive=zip passes and keeps archive=zip in the package address")
 			}
 			// at most one archive argument: the value tests sit past the passing edge of a count test
 			var one []Edge
